@@ -22,7 +22,7 @@ BUDGET = {"quick": 3000, "thorough": 40000}
 MIN_NONTRIVIAL = {"quick": 300, "thorough": 3000}
 REQUIRED_FUNCTIONS = ["listener.py:BlackbirdListener.exitArrayvar", "auxiliary.py:_expression", "program.py:BlackbirdProgram.serialize", "listener.py:is_ptype"]
 FUNCTIONS = REQUIRED_FUNCTIONS
-REQUIRED_TAGS = ["tdm", "control", "parray:int", "parray:float", "parray:complex", "parray:keyword", "parray:in-loop", "with:template-parameter", "with:ordinary-array", "with:scalar", "parray:long", "parray:whole-array-parameter", "ordinary-array-named-like-hoisted"]
+REQUIRED_TAGS = ["tdm", "control", "parray:int", "parray:float", "parray:complex", "parray:keyword", "parray:in-loop", "with:template-parameter", "with:ordinary-array", "with:scalar", "parray:long", "parray:whole-array-parameter", "ordinary-array-named-like-hoisted", "parray:declared-again"]
 ASSUMPTIONS = ["tdm rule of the reference: an array named p<digits> used as a whole argument denotes its name (DESIGN Appendix A rule 12)"]
 
 
@@ -119,6 +119,18 @@ def build(rng, g, tdm=True):
                 kws.append("%s=%s" % (k, G.value_text(depth=1)))
         al = "(" + ", ".join(args + kws) + ")" if (args or kws or rng.random() < 0.5) else ""
         stmts.append(G.opname() + al + " | " + G.modes_text(G.pick_modes(2)))
+    if rng.random() < 0.25 and len(stmts) >= 2:
+        # a p-array declared a second time between the statements (new values for the later operations): it is still a
+        # p-array and is still passed by its name afterwards
+        pn = rng.choice(declared_p)
+        vt = rng.choice(["float", "int", "complex"])
+        ncol = rng.randint(1, 5)
+        vals = {"float": ["0.5", "1.25", "-3.0", "2e-3", "7"], "int": ["1", "-2", "30", "4"], "complex": ["1+2j", "0.5", "3j", "2-0.5j"]}[vt]
+        decl = "%s array %s =\n    %s" % (vt, pn, ", ".join(rng.choice(vals) for _ in range(ncol)))
+        at = rng.randint(1, len(stmts) - 1)
+        stmts.insert(at, decl)
+        stmts.insert(at + 1, "Again(%s, k=%s) | %s" % (pn, rng.choice(declared_p), G.modes_text(G.pick_modes(1))))
+        tags.add("parray:declared-again")
     if rng.random() < 0.4:
         v = G.ident()
         stmts.append("for int %s in 0:%d" % (v, rng.randint(1, 3)))
